@@ -43,6 +43,11 @@ SOURCES["v6"] = dict(SOURCES["v1"], **{"cb/src/lib.rs": SOURCES["v1"]["cb/src/li
 FAILS = {"v6"}
 
 
+# v7 = v3 under another configuration file (MC_Writer!MCVersions): decorators / constraints reach every module and the helper file
+SOURCES["v7"] = dict(SOURCES["v3"], **{"typeshare.toml": '[swift]\ndefault_decorators = ["Sendable", "Identifiable"]\ncodablevoid_constraints = ["Hashable"]\n'
+                                                         '[typescript.type_mappings]\n"u32" = "bigint"\n[python.type_mappings]\n"u32" = "float"\n'})
+
+
 def set_sources(root, v):
     if os.path.isdir(root):
         shutil.rmtree(root)
@@ -52,6 +57,8 @@ def set_sources(root, v):
 def run_into(out, src, lang, mode, expect_fail=False):
     args = ["-l", lang] + LANG_ARGS[lang]
     args += ["-o", os.path.join(out, "out." + common.EXT[lang])] if mode == "single" else ["-d", out]
+    if os.path.exists(os.path.join(src, "typeshare.toml")):
+        args += ["-c", os.path.join(src, "typeshare.toml")]
     args.append(src)
     os.makedirs(out, exist_ok=True)
     r = cli.run_cli(args, timeout=20)
